@@ -87,6 +87,10 @@ func init() {
 			ruleErrorLookedAtOnEveryPath(c, "C16.LOOKEDAT", c.prodFuncs("boltz"))
 			// the context the caller's function runs with is the caller's own (a system context stays one)
 			ruleTxFn(c, "C16.TXFN")
+			// a refusal recorded by the constraint blocks the writers: the indexing context records into the
+			// operation's own holder (the entity bucket), and create-or-not is fixed by the entry point
+			ruleErrHolderShared(c, "C16.HOLDER")
+			ruleCreateIsCreate(c, "C16.CREATECTX")
 			// a refusal recorded in the child's error holder must survive the hand-over to the parent context
 			ruleParentChain(c, "C16.CHAIN")
 		},
